@@ -97,7 +97,7 @@ RandomAccessIterator3 parallel_multiway_merge_base(
 
     size_t num_seqs = seqs_ne.size();
 
-    if (total_size == 0 || num_seqs == 0)
+    if (total_size == 0 || num_seqs == 0 || size == 0)
         return target;
 
     if (static_cast<DiffType>(num_threads) > total_size)
@@ -169,12 +169,14 @@ RandomAccessIterator3 parallel_multiway_merge_base(
         threads[i].join();
 #endif
 
-    // update ends of sequences
+    // update ends of sequences: the last thread's chunk begins were advanced
+    // by multiway_merge_base() past exactly the elements it consumed (its
+    // chunks may reach further than 'size' elements with sampling splitting)
     size_t count_seqs = 0;
     for (RandomAccessIteratorIterator ii = seqs_begin; ii != seqs_end; ++ii)
     {
         if (ii->first != ii->second)
-            ii->first = chunks[num_threads - 1][count_seqs++].second;
+            ii->first = chunks[num_threads - 1][count_seqs++].first;
     }
 
     return target + size;
